@@ -125,7 +125,7 @@ func c09idx(c *core.Ctx, r *core.Reporter) {
 				}
 			}
 		}
-		if !has {
+		if !has || takesTestingT(fn) {
 			continue
 		}
 		res := an.Analyze(fn, nil, nil, 0)
@@ -201,10 +201,45 @@ func c09idx(c *core.Ctx, r *core.Reporter) {
 		}
 		r.Violate(ruleIdx, key, c.Pos(s.in.Pos()), detail+": no dominating length check, argument-count check or caller guarantee was found")
 	}
+	var stale []string
+	for k := range idxExceptions {
+		if !usedIdxEx[k] {
+			stale = append(stale, k)
+		}
+	}
+	sort.Strings(stale)
+	for _, k := range stale {
+		r.Infof("stale exception (the construct is now proven or gone; remove it from the table): %s", k)
+	}
+	r.Count("idx.exceptions_by_reading", len(usedIdxEx))
+}
+
+// takesTestingT: helpers that need a *testing.T are not reachable from Lisp input.
+func takesTestingT(fn *ssa.Function) bool {
+	for fn.Parent() != nil {
+		fn = fn.Parent()
+	}
+	for _, p := range fn.Params {
+		if core.IsNamed(p.Type(), "testing", "T") {
+			return true
+		}
+	}
+	return false
 }
 
 var usedIdxEx = map[string]bool{}
 
 // idxExceptions: constructs confirmed safe by reading, one reason each. A key
 // that no longer matches anything is reported (stale suppressions cannot accumulate).
-var idxExceptions = map[string]string{}
+var idxExceptions = map[string]string{
+	"pkg/cl.(Count).Call|param:args[idx1]":    "setKeysItem (called just before with the same args) enforces CheckArgCount(min=2) because sfv.noItem is false for this caller (only delete-duplicates sets it); the bound is a struct field, beyond the constant folding of the engine. (count 1) => 'Too few arguments ... At least 2'",
+	"pkg/cl.(Delete).Call|param:args[idx1]":   "as count: setKeysItem enforces min=2 when sfv.noItem is false, which it is for this caller",
+	"pkg/cl.(Find).Call|param:args[idx1]":     "as count: setKeysItem enforces min=2 when sfv.noItem is false, which it is for this caller",
+	"pkg/cl.(Position).Call|param:args[idx1]": "as count: setKeysItem enforces min=2 when sfv.noItem is false, which it is for this caller",
+	"pkg/cl.(Ecase).Call|assert:slip.List[idx0]": "reached only after the first loop validated every clause as a non-empty List (TypePanic otherwise) without finding a match; a per-element invariant established by an earlier loop is outside the engine",
+	"pkg/cl.(Etypecase).Call|assert:slip.List[idx0]": "as ecase: the first loop validates every clause (!ok || len==0 -> TypePanic) before this loop runs",
+	"pkg/flavors.(Flavor).DefMethodList|assert:slip.List[low1]": "the list is (*slip.Lambda).LoadForm(), which always starts with the symbol lambda and the lambda list (len >= 2); lam is a concrete *slip.Lambda; not a Lisp argument list",
+	"pkg/flavors.(defHand).Call|param:args[idx0]": "only invoked as Flavor.defaultHandler.Call from Instance.Receive where the argument list is built as append([message], args...), len >= 1; (send inst :nosuch) gives a proper invalid-method error",
+	"pkg/gi.(Select).Call|assert:slip.List[idx0]": "prepClauses is called first and raises TypePanic for any clause that is not a non-empty List; clauses are mutated in place, never shortened",
+	"pkg/gi.(Select).reflectClauses|assert:slip.List[idx0]": "only called from Select.Call after prepClauses validated every clause as a non-empty List",
+}
